@@ -433,6 +433,22 @@ example :
       = .ok (.lin ⟨1, 3, ⟨3, 4, 100, 4, -3, 200⟩, some ⟨3857, false⟩⟩) := by
   decide +kernel
 
+/-! ### option forwarding -/
+
+/-- **options_forwarded** — `_extract_output_geobox_params` hands every grid option that the caller
+gave to `output_geobox`, *whatever its value* (falsy-but-meaningful values such as `tol=0`,
+`tight=False`, `anchor=0`, `shape=None` included), forwards nothing else, and leaves exactly the
+other keywords for the warp. -/
+theorem options_forwarded {α : Type} (kw : List (String × α)) (k : String) (v : α) (h : (k, v) ∈ kw) :
+    (k ∈ gboxKeys → (k, v) ∈ (extractOutputGeoboxParams kw).1 ∧ (k, v) ∉ (extractOutputGeoboxParams kw).2) ∧
+    (k ∉ gboxKeys → (k, v) ∈ (extractOutputGeoboxParams kw).2 ∧ (k, v) ∉ (extractOutputGeoboxParams kw).1) ∧
+    (∀ kv ∈ (extractOutputGeoboxParams kw).1, kv ∈ kw ∧ kv.1 ∈ gboxKeys) := by
+  refine ⟨fun hk => ?_, fun hk => ?_, fun kv hkv => ?_⟩
+  · simp [extractOutputGeoboxParams, List.mem_filter, h, hk]
+  · simp [extractOutputGeoboxParams, List.mem_filter, h, hk]
+  · have := List.mem_filter.mp hkv
+    exact ⟨this.1, by simpa using this.2⟩
+
 /-! ## GCP boxes -/
 
 /-- **roundtrip_gcp_points** — a GCP-registered array (identity pixel transform, CRS attached, any
